@@ -459,3 +459,5 @@ func (p *Prog) aliasedFacts(s FactSet, f Fact) []Fact {
 	}
 	return out
 }
+
+func resetAddrTakenMemo() { addrTakenMemo = map[*Func]map[*types.Var]bool{} }
